@@ -112,6 +112,12 @@ func TestVerifC14(t *testing.T) {
 				panic(verifmc.EngineError{Msg: "bad replay input: " + err.Error()})
 			}
 			c14BFSReplay(col, hist)
+		} else if rf.Scenario == "loglist" {
+			var shapes []string
+			if err := json.Unmarshal(rf.Input, &shapes); err != nil {
+				panic(verifmc.EngineError{Msg: "bad replay input: " + err.Error()})
+			}
+			c14LogListReplay(col, shapes)
 		} else {
 			found := false
 			for _, sc := range c14Scenarios(true) {
@@ -138,9 +144,11 @@ func TestVerifC14(t *testing.T) {
 	if thorough {
 		depth = 4
 	}
-	col.deadline = start.Add(budget * 50 / 100)
+	col.deadline = start.Add(budget * 45 / 100)
 	if os.Getenv("VERIF_C14_PART") != "B" {
 		c14BFS(col, depth, shard, nshards)
+		// Part C: log lists through the real list path.
+		c14LogLists(col, 3, shard, nshards, start.Add(budget*60/100))
 	}
 	if os.Getenv("VERIF_C14_PART") == "A" {
 		scenarios = nil
